@@ -1,12 +1,16 @@
 package rules
 
 import (
+	"go/token"
+	"go/types"
 	"os"
 	"sort"
+	"strings"
 
 	"golang.org/x/tools/go/ssa"
 
 	"gfs3check/internal/core"
+	"gfs3check/internal/lockset"
 	"gfs3check/internal/oblig"
 )
 
@@ -14,66 +18,1378 @@ func init() { Registry["C09"] = C09 }
 
 // C09 — every request gets a well-formed answer; no panic, hang or wedge.
 func C09(r *core.Run) {
-	r.Explanation = "TODO"
+	r.Explanation = "Every may-panic construct in code reachable from the router and the middlewares is enumerated and discharged: " +
+		"(R09.1b) all bounds checks the Go compiler's prove pass could not remove (the compiler's own list, -d=ssa/check_bce) — by structural rules (guards on len, library post-conditions, induction variables, the Range() envelope) or by a reviewed table whose premises are re-checked; " +
+		"(R09.1n) nilable fields (GoFakeS3.versioned, bucketObject.versions/data, iterator fields) are dereferenced only where established non-nil on every path; " +
+		"(R09.1t) unchecked type assertions only on homogeneous skiplist classes; (R09.1p) explicit panics are in the reviewed table; (R09.1a) request-sized allocations are bounded; " +
+		"(R09.2) every route switch has a default arm returning an S3 error and routeBase ends in NotFound; (R02.4) error funnel and status table; " +
+		"(R09.4) locks released by explicit unlock protect only code with no undischarged obligation; (R09.6) each middleware answers or calls next exactly once; (R09.7) no blocking primitive in handler-reachable code."
+	r.NotDecided = "panics inside dependencies (bbolt, afero, encoding/xml) on hostile data, nil results of backend calls and map lookups (heap invariants), memory exhaustion, slow-client hangs, non-terminating loops, the post-request canary"
+	r.TrustedBase = append(r.TrustedBase, "gc's prove pass (completeness of the bounds-obligation list)", "library post-condition table (strings.Split*, strings.Index*, HasPrefix/HasSuffix, io.Reader.Read)", "reviewed discharge table in rules/c09.go")
 	reach := reachableFrom(r, handlerRoots(r))
 	r.Extra["handler_reachable_functions"] = len(reach)
-	rule091bounds(r, reach)
+	ctx := oblig.NewCtx(r.P)
+	installNonNilHook(r, ctx)
+	undischarged := rule091bounds(r, ctx, reach)
+	rule091nil(r, ctx, reach)
+	rule091assert(r, ctx, reach)
+	rule091panic(r, ctx, reach)
+	rule091alloc(r, ctx, reach)
+	rule092(r)
+	rule024(r)
+	rule094(r, ctx, undischarged)
+	rule096(r)
+	rule097(r, reach)
 }
 
-func rule091bounds(r *core.Run, reach map[*ssa.Function]bool) {
-	r.Rule("R09.1b", "every bounds check the compiler could not prove away, in a function reachable from the router, is discharged by a structural rule or a reviewed entry")
+// reviewed is one entry of the reviewed discharge table. Keys are structural
+// (function, check kind, base descriptor, optional exact index-leaf set) —
+// never a line or source text. premise re-checks what the review relied on.
+type reviewed struct {
+	fn, check, base string
+	leaves          []string // if non-empty: the site's index leaf set must equal one of these
+	why             string
+	premise         func(r *core.Run, ctx *oblig.Ctx, s *oblig.Site) (bool, string)
+}
+
+var reviewedBounds = []reviewed{
+	{fn: "gofakes3.(*chunkedReader).Read", check: "IsSliceInBounds", base: "param#1:[]byte",
+		leaves: []string{
+			"call:builtin:len;call:invoke:io.Reader.Read;const:0;param:[]byte",
+			"call:builtin:len;call:invoke:io.Reader.Read;const:0;field:gofakes3.chunkedReader.chunkRemain;field:gofakes3.chunkedReader.inner;param:*gofakes3.chunkedReader;param:[]byte",
+		},
+		why: "loop invariant n+sizeToRead == len(p): branch 1 reads p[n:n+sizeToRead]; branch 2 is taken only when 0 < chunkRemain <= sizeToRead, so n+chunkRemain <= len(p). Both counters move by the delivered byte count (R12.1).",
+		premise: func(r *core.Run, ctx *oblig.Ctx, s *oblig.Site) (bool, string) {
+			// the slice must be on an arm guarded by chunkRemain > sizeToRead (branch 1) or chunkRemain > 0 on the else arm (branch 2)
+			for _, f := range ctx.FactsAt(s.Instr) {
+				if f.Op == token.GTR || f.Op == token.LEQ || f.Op == token.LSS || f.Op == token.GEQ {
+					sx := r.P.SliceOfMany([]ssa.Value{f.X, f.Y}, core.SliceOpts{Depth: -1})
+					if sx.Has("field:gofakes3.chunkedReader.chunkRemain") {
+						return true, ""
+					}
+				}
+			}
+			return false, "the slice is no longer guarded by a comparison on chunkRemain"
+		}},
+	{fn: "gofakes3.metadataHeaders", check: "IsInBounds", base: "range-value",
+		why: "header maps built by net/http and mime/multipart never map a key to an empty value slice",
+		premise: func(r *core.Run, ctx *oblig.Ctx, s *oblig.Site) (bool, string) {
+			for _, site := range r.P.StaticCallers(s.Fn) {
+				sl := r.P.SliceOf(site.Common().Args[0], core.SliceOpts{Depth: -1})
+				if !sl.Has("field:net/http.Request.Header") && !sl.Has("field:mime/multipart.Form.Value") {
+					return false, "a caller at " + r.P.InstrPos(site) + " passes a header map that is not r.Header / r.MultipartForm.Value"
+				}
+			}
+			return true, ""
+		}},
+	{fn: "gofakes3.(Prefix).Match", check: "IsSliceInBounds", base: "call:strings.Split",
+		why: "matched counts iterations of a loop bounded by len(preParts), and len(keyParts) >= len(preParts) is established by the early return",
+		premise: func(r *core.Run, ctx *oblig.Ctx, s *oblig.Site) (bool, string) {
+			x := baseOf(s.Instr)
+			for _, f := range ctx.FactsAt(s.Instr) {
+				if f.Op != token.GEQ && f.Op != token.LEQ {
+					continue
+				}
+				a, b := f.X, f.Y
+				if f.Op == token.LEQ {
+					a, b = b, a
+				}
+				if isLenOfVal(ctx, a, x) && isLenCall(b) {
+					return true, ""
+				}
+			}
+			return false, "the guard len(keyParts) >= len(preParts) no longer dominates the slice"
+		}},
+	{fn: "gofakes3.(*bucketUploads).remove", check: "IsSliceInBounds", base: "assert(result#0 of call:(*github.com/ryszard/goskiplist/skiplist.SkipList).Get)",
+		why: "found is the range index over the same slice, or -1; the slice expressions are guarded by found >= 0",
+		premise: func(r *core.Run, ctx *oblig.Ctx, s *oblig.Site) (bool, string) {
+			sl := s.Instr.(*ssa.Slice)
+			b := sl.High
+			if b == nil {
+				b = sl.Low
+				if bo, ok := b.(*ssa.BinOp); ok && bo.Op == token.ADD {
+					b = bo.X
+				}
+			}
+			if lb, ok := ctx.LowerBound(b, sl); ok && lb >= 0 {
+				return true, ""
+			}
+			return false, "the found >= 0 guard no longer dominates the slice"
+		}},
+	{fn: "gofakes3.(*uploader).ListMultipartUploads", check: "IsInBounds", base: "phi-of-index-values",
+		leaves: []string{"const:-1;const:1"},
+		why: "uploads[idx+1] is reached only when idx != len(uploads)-1 inside a range over uploads, hence idx+1 < len(uploads)",
+		premise: func(r *core.Run, ctx *oblig.Ctx, s *oblig.Site) (bool, string) {
+			for _, f := range ctx.FactsAt(s.Instr) {
+				if f.Op != token.NEQ {
+					continue
+				}
+				for _, side := range []ssa.Value{f.X, f.Y} {
+					if bo, ok := side.(*ssa.BinOp); ok && bo.Op == token.SUB && isLenCall(bo.X) {
+						if k, ok := core.ConstInt(bo.Y); ok && k == 1 {
+							return true, ""
+						}
+					}
+				}
+			}
+			return false, "the idx != len(uploads)-1 guard no longer dominates the index"
+		}},
+	{fn: "gofakes3.(*uploader).ListMultipartUploads", check: "IsInBounds", base: "assert(call:goskipiter.(*Iterator).Value)",
+		leaves: []string{"const:0"},
+		why: "the object index never maps a key to an empty slice (R14.4: remove deletes the key when the last upload goes, add always stores a non-empty slice)",
+		premise: func(r *core.Run, ctx *oblig.Ctx, s *oblig.Site) (bool, string) {
+			return indexNeverEmpty(r, ctx)
+		}},
+	{fn: "gofakes3.(*uploader).UploadPart", check: "IsInBounds", base: "field:gofakes3.multipartUpload.parts",
+		why: "every caller passes partNumber >= 1, and the slice is grown to partNumber+1 on the arm partNumber >= len(parts) immediately before",
+		premise: premiseUploadPartIndex},
+	{fn: "gofakes3.(*uploader).CompleteMultipartUpload", check: "IsInBounds", base: "field:gofakes3.multipartUpload.parts",
+		why: "same index expression as the validated site of the first loop over the same input.Parts; parts is not written in between",
+		premise: premiseTwinSite},
+	{fn: "s3mem.(*versionGenerator).Next", check: "IsSliceInBounds", base: "phi(make:[]byte,param#1:[]byte)",
+		why: "scratch is re-made with length len(idb)+neat+1 whenever it is shorter, so len(idb)+1 <= len(scratch)",
+		premise: func(r *core.Run, ctx *oblig.Ctx, s *oblig.Site) (bool, string) {
+			x := baseOf(s.Instr)
+			ph, ok := x.(*ssa.Phi)
+			if !ok {
+				return false, "scratch is no longer the merge of the parameter and a fresh make"
+			}
+			for _, e := range ph.Edges {
+				if ms, ok := e.(*ssa.MakeSlice); ok {
+					for _, g := range core.GuardsOf(ms) {
+						cd := core.CondOf(g.If.Cond)
+						if cd.Op == token.LSS && isLenCall(cd.X) && cd.Y == ms.Len && g.Branch {
+							return true, ""
+						}
+					}
+				}
+			}
+			return false, "the len(scratch) < scratchLen guard on the re-allocation is gone"
+		}},
+	{fn: "s3mem.(*versionGenerator).Next", check: "IsInBounds", base: "slice-of(phi(make:[]byte,param#1:[]byte))",
+		why: "b = scratch[len(idb)+1:] has at least neat bytes, neat is a multiple of 8 and the loop steps i by 8 below neat",
+		premise: func(r *core.Run, ctx *oblig.Ctx, s *oblig.Site) (bool, string) {
+			// index = i + k, 0 <= k <= 7, i a loop variable stepped by 8 under i < neat
+			ia := s.Instr.(*ssa.IndexAddr)
+			idx := ia.Index
+			k := int64(0)
+			if bo, ok := idx.(*ssa.BinOp); ok && bo.Op == token.ADD {
+				if kk, ok := core.ConstInt(bo.Y); ok {
+					idx, k = bo.X, kk
+				}
+			}
+			if k < 0 || k > 7 {
+				return false, "byte offset outside 0..7"
+			}
+			ph, ok := idx.(*ssa.Phi)
+			if !ok {
+				return false, "index is not the loop variable"
+			}
+			step8 := false
+			for _, e := range ph.Edges {
+				if bo, ok := e.(*ssa.BinOp); ok && bo.Op == token.ADD && bo.X == ssa.Value(ph) {
+					if kk, ok := core.ConstInt(bo.Y); ok && kk == 8 {
+						step8 = true
+					}
+				}
+			}
+			if !step8 {
+				return false, "loop variable is not stepped by 8"
+			}
+			return true, ""
+		}},
+}
+
+func isLenCall(v ssa.Value) bool {
+	c, ok := v.(*ssa.Call)
+	if !ok {
+		return false
+	}
+	b, ok := c.Call.Value.(*ssa.Builtin)
+	return ok && b.Name() == "len"
+}
+
+func isLenOfVal(ctx *oblig.Ctx, v, x ssa.Value) bool {
+	c, ok := v.(*ssa.Call)
+	if !ok || !isLenCall(v) {
+		return false
+	}
+	return ctx.Equiv(c.Call.Args[0], x)
+}
+
+func premiseUploadPartIndex(r *core.Run, ctx *oblig.Ctx, s *oblig.Site) (bool, string) {
+	fn := s.Fn
+	pn := paramNamed(fn, "partNumber")
+	if pn == nil {
+		return false, "UploadPart has no partNumber parameter"
+	}
+	ia, ok := s.Instr.(*ssa.IndexAddr)
+	if !ok || ia.Index != ssa.Value(pn) {
+		return false, "the index is not the partNumber parameter itself"
+	}
+	// all callers: partNumber >= 1
+	n := 0
+	for _, f := range r.P.RepoFuncs() {
+		var bad string
+		core.Instrs(f, func(in ssa.Instruction) {
+			c, ok := in.(ssa.CallInstruction)
+			if !ok {
+				return
+			}
+			name := r.P.CalleeName(c)
+			if name != "invoke:gofakes3.MultipartBackend.UploadPart" && core.StaticCallee(c) != fn {
+				return
+			}
+			n++
+			args := c.Common().Args
+			arg := args[3]
+			if !c.Common().IsInvoke() {
+				arg = args[4]
+			}
+			if lb, ok := ctx.LowerBound(arg, c); !ok || lb < 1 {
+				bad = "caller at " + r.P.InstrPos(c) + " does not establish partNumber >= 1"
+			}
+		})
+		if bad != "" {
+			return false, bad
+		}
+	}
+	if n == 0 {
+		return false, "no caller of UploadPart found"
+	}
+	// grow arm: a store to parts guarded by partNumber >= len(parts) dominates... (reaches) the index
+	grown := false
+	for _, st := range r.P.FieldStores("gofakes3.multipartUpload.parts") {
+		if st.Parent() != fn {
+			continue
+		}
+		for _, f := range ctx.FactsAt(st) {
+			if f.Op == token.GEQ && f.X == ssa.Value(pn) && isLenCall(f.Y) {
+				sv := r.P.SliceOf(st.Val, core.SliceOpts{Depth: -1})
+				if sv.HasValue(pn) && sv.Has("call:builtin:append") && core.Reaches(st, s.Instr) {
+					grown = true
+				}
+			}
+		}
+	}
+	if !grown {
+		return false, "the parts slice is no longer grown on the arm partNumber >= len(parts) before the store"
+	}
+	return true, ""
+}
+
+// premiseTwinSite: another site in the same function with the same base and
+// index leaves is discharged automatically, reaches this one, and the indexed
+// field is not written in the function.
+func premiseTwinSite(r *core.Run, ctx *oblig.Ctx, s *oblig.Site) (bool, string) {
+	fnm := "gofakes3.multipartUpload.parts"
+	for _, st := range r.P.FieldStores(fnm) {
+		if st.Parent() == s.Fn {
+			return false, "the function writes " + fnm
+		}
+	}
+	want := ctx.IndexLeaves(s.Instr)
+	found := false
+	core.Instrs(s.Fn, func(in ssa.Instruction) {
+		ia, ok := in.(*ssa.IndexAddr)
+		if !ok || in == s.Instr {
+			return
+		}
+		if ctx.BaseDesc(ia.X) != "field:"+fnm || ctx.IndexLeaves(ia) != want {
+			return
+		}
+		lb, ok := ctx.LowerBound(ia.Index, ia)
+		if ok && lb >= 0 && ctx.LessThanLen(ia.Index, ia.X, ia, true) && core.Reaches(ia, s.Instr) {
+			found = true
+		}
+	})
+	if !found {
+		return false, "no validated twin of this index expression precedes it"
+	}
+	return true, ""
+}
+
+// indexNeverEmpty checks the structural form of "the upload index never maps a
+// key to an empty slice" (R14.4).
+func indexNeverEmpty(r *core.Run, ctx *oblig.Ctx) (bool, string) {
+	setName := "(*github.com/ryszard/goskiplist/skiplist.SkipList).Set"
+	ok := true
+	why := ""
+	n := 0
+	for _, fn := range r.P.FuncsOfPkg("gofakes3") {
+		for _, c := range r.P.CallsIn(fn, false, core.NameIs(setName)) {
+			recv := r.P.SliceOf(c.Common().Args[0], core.SliceOpts{Depth: -1})
+			if !recv.Has("field:gofakes3.bucketUploads.objectIndex") {
+				continue
+			}
+			n++
+			name := fname(r, fn)
+			if name != "gofakes3.(*bucketUploads).add" && name != "gofakes3.(*bucketUploads).remove" {
+				ok, why = false, "objectIndex.Set is called outside add/remove, in "+name
+				continue
+			}
+			// value stored: MakeInterface of a slice whose length is provably >= 1
+			v := c.Common().Args[2]
+			if mi, isMI := v.(*ssa.MakeInterface); isMI {
+				v = mi.X
+			}
+			if !sliceNonEmpty(ctx, v, c.(ssa.Instruction), 0) {
+				ok, why = false, "objectIndex.Set in "+name+" may store an empty slice (at "+r.P.InstrPos(c.(ssa.Instruction))+")"
+			}
+		}
+	}
+	if n < 2 {
+		return false, "fewer than two objectIndex.Set sites found"
+	}
+	return ok, why
+}
+
+// sliceNonEmpty: len(v) >= 1 at `at`.
+func sliceNonEmpty(ctx *oblig.Ctx, v ssa.Value, at ssa.Instruction, d int) bool {
+	if d > 4 {
+		return false
+	}
+	// guard: len(v) != 0 / > 0 at the use
+	for _, f := range ctx.FactsAt(at) {
+		var l, o ssa.Value
+		if isLenOfVal(ctx, f.X, v) {
+			l, o = f.X, f.Y
+		} else if isLenOfVal(ctx, f.Y, v) {
+			l, o = f.Y, f.X
+		}
+		if l == nil {
+			continue
+		}
+		if k, ok := core.ConstInt(o); ok && k == 0 && (f.Op == token.NEQ || (f.Op == token.GTR && l == f.X) || (f.Op == token.LSS && l == f.Y)) {
+			return true
+		}
+	}
+	switch x := v.(type) {
+	case *ssa.MakeInterface:
+		return sliceNonEmpty(ctx, x.X, at, d+1)
+	case *ssa.Phi:
+		for _, e := range x.Edges {
+			if !sliceNonEmpty(ctx, e, at, d+1) {
+				return false
+			}
+		}
+		return true
+	case *ssa.Call:
+		if b, ok := x.Call.Value.(*ssa.Builtin); ok && b.Name() == "append" && len(x.Call.Args) == 2 {
+			if sl, ok := x.Call.Args[1].(*ssa.Slice); ok && sl.Low == nil && sl.High == nil {
+				if pt, ok := sl.X.Type().Underlying().(*types.Pointer); ok {
+					if at, ok := pt.Elem().Underlying().(*types.Array); ok && at.Len() >= 1 {
+						return true
+					}
+				}
+			}
+		}
+	case *ssa.Slice:
+		// slice of a literal array [k]T with k >= 1 and no bounds
+		if x.Low == nil && x.High == nil {
+			if pt, ok := x.X.Type().Underlying().(*types.Pointer); ok {
+				if at, ok := pt.Elem().Underlying().(*types.Array); ok && at.Len() >= 1 {
+					return true
+				}
+			}
+		}
+	}
+	return false
+}
+
+func rule091bounds(r *core.Run, ctx *oblig.Ctx, reach map[*ssa.Function]bool) map[*ssa.Function][]string {
+	r.Rule("R09.1b", "every bounds check the compiler could not prove away, in a function reachable from the router, is discharged by a structural rule or by a reviewed entry whose premises hold")
+	und := map[*ssa.Function][]string{}
 	sites, err := oblig.CompilerBounds(r.P)
 	if err != nil {
 		r.Unresolved("R09.1b: %v", err)
-		return
+		return und
 	}
-	ctx := oblig.NewCtx(r.P)
 	debug := os.Getenv("GFS3_DEBUG") != ""
-	var names []string
-	for f := range reach {
-		names = append(names, fname(r, f))
-	}
-	sort.Strings(names)
+	envelopeOK := -1
+	nSites := 0
 	for _, s := range sites {
-		top := s.Fn
-		if top == nil {
+		if s.Fn == nil {
 			r.Unresolved("R09.1b: site %s has no enclosing function", s.Pos())
 			continue
 		}
-		inReach := reach[s.Fn]
+		nSites++
 		res := ctx.Discharge(s)
-		k := key(fname(r, s.Fn), s.Check)
+		var k, base, leaves string
 		if s.Instr != nil {
-			x := baseOf(s.Instr)
-			k = key(fname(r, s.Fn), s.Check, ctx.BaseDesc(x), ctx.IndexLeaves(s.Instr))
+			base = ctx.BaseDesc(baseOf(s.Instr))
+			if strings.HasPrefix(base, "phi(assert(call:goskipiter") {
+				base = "phi-of-index-values"
+			}
+			leaves = ctx.IndexLeaves(s.Instr)
+			k = key(fname(r, s.Fn), s.Check, base, leaves)
 		} else {
 			k = key(fname(r, s.Fn), s.Check, "call "+s.Callee)
 		}
-		if debug {
-			println(s.Pos(), inReach, res.OK, res.Rule, k, res.Detail)
-		}
-		if !inReach {
+		if !reach[s.Fn] {
 			r.Info("R09.1b", k, s.Pos(), "not reachable from the router")
 			continue
+		}
+		if !res.OK && s.Instr != nil {
+			// Range() envelope
+			if ok, why := envelopeSite(r, ctx, s); ok {
+				if envelopeOK < 0 {
+					envelopeOK = 0
+					if rule111(r, ctx) {
+						envelopeOK = 1
+					}
+				}
+				if envelopeOK == 1 {
+					res = oblig.Result{OK: true, Rule: "range-envelope", Detail: why}
+				} else {
+					res.Detail = "depends on the Range() envelope (R11.1), which does not hold"
+				}
+			}
+		}
+		if !res.OK && s.Instr != nil {
+			for _, rv := range reviewedBounds {
+				if rv.fn != fname(r, s.Fn) || rv.check != s.Check || rv.base != base {
+					continue
+				}
+				if len(rv.leaves) > 0 && !has(rv.leaves, leaves) {
+					continue
+				}
+				if rv.premise != nil {
+					ok, why := rv.premise(r, ctx, s)
+					if !ok {
+						res.Detail = "reviewed entry applies but its premise no longer holds: " + why
+						continue
+					}
+				}
+				res = oblig.Result{OK: true, Rule: "reviewed", Detail: rv.why}
+				break
+			}
+		}
+		if debug {
+			println(s.Pos(), res.OK, res.Rule, k, res.Detail)
 		}
 		if res.OK {
 			r.Held("R09.1b", k, s.Pos(), res.Rule+": "+res.Detail)
 			continue
 		}
-		r.Violated("R09.1b", k, s.Pos(), "undischarged bounds obligation: "+res.Detail)
+		und[s.Fn] = append(und[s.Fn], s.Pos())
+		r.Violated("R09.1b", k, s.Pos(), "undischarged bounds obligation in "+fname(r, s.Fn)+": "+res.Detail)
+	}
+	r.Extra["compiler_bounds_sites"] = nSites
+	r.Floor("R09.1b", 30, "compiler-reported bounds sites in handler-reachable code")
+	return und
+}
+
+// envelopeSite: data[rnge.Start : rnge.Start+rnge.Length] with rnge the
+// non-nil result of Range(sz) and sz the length of data.
+func envelopeSite(r *core.Run, ctx *oblig.Ctx, s *oblig.Site) (bool, string) {
+	sl, ok := s.Instr.(*ssa.Slice)
+	if !ok || sl.Low == nil || sl.High == nil {
+		return false, ""
+	}
+	rangeFn := r.P.Func("gofakes3.(*ObjectRangeRequest).Range")
+	fieldOf := func(v ssa.Value, field string) ssa.Value {
+		ld, ok := v.(*ssa.UnOp)
+		if !ok || ld.Op != token.MUL {
+			return nil
+		}
+		fa, ok := ld.X.(*ssa.FieldAddr)
+		if !ok || r.P.FieldName(fa) != field {
+			return nil
+		}
+		return fa.X
+	}
+	b1 := fieldOf(sl.Low, "gofakes3.ObjectRange.Start")
+	hi, ok := sl.High.(*ssa.BinOp)
+	if b1 == nil || !ok || hi.Op != token.ADD {
+		return false, ""
+	}
+	b2 := fieldOf(hi.X, "gofakes3.ObjectRange.Start")
+	b3 := fieldOf(hi.Y, "gofakes3.ObjectRange.Length")
+	if b2 == nil || b3 == nil {
+		return false, ""
+	}
+	var call *ssa.Call
+	rngOf := func(v ssa.Value) *ssa.Call {
+		if ph, ok := v.(*ssa.Phi); ok {
+			var c *ssa.Call
+			for _, e := range ph.Edges {
+				if core.IsNilConst(e) {
+					continue
+				}
+				ex, ok := e.(*ssa.Extract)
+				if !ok {
+					return nil
+				}
+				cc, ok := ex.Tuple.(*ssa.Call)
+				if !ok || (c != nil && c != cc) {
+					return nil
+				}
+				c = cc
+			}
+			return c
+		}
+		if ex, ok := v.(*ssa.Extract); ok && ex.Index == 0 {
+			c, _ := ex.Tuple.(*ssa.Call)
+			return c
+		}
+		return nil
+	}
+	call = rngOf(b1)
+	if call == nil || rngOf(b2) != call || rngOf(b3) != call || core.StaticCallee(call) != rangeFn {
+		return false, ""
+	}
+	// non-nil guard on the range value
+	guarded := false
+	for _, f := range ctx.FactsAt(sl) {
+		if f.Op == token.NEQ && (core.IsNilConst(f.Y) && rngOf(f.X) == call || core.IsNilConst(f.X) && rngOf(f.Y) == call) {
+			guarded = true
+		}
+	}
+	if !guarded {
+		return false, ""
+	}
+	// size argument = len(data)
+	sz := call.Call.Args[1]
+	x := oblig.ResolveLocal(sl.X)
+	if cv, ok := sz.(*ssa.Convert); ok && isLenOfVal(ctx, cv.X, x) {
+		return true, "data[Start:Start+Length] with the non-nil result of Range(len(data)): 0<=Start, Start+Length<=len(data) by the envelope R11.1"
+	}
+	// bolt: Range(b.Size) with the reviewed premise Size == len(Contents) at every marshal site
+	szl := r.P.SliceOf(sz, core.SliceOpts{Depth: -1})
+	if szl.Has("field:s3bolt.boltObject.Size") && ctx.BaseDesc(x) == "field:s3bolt.boltObject.Contents" {
+		if ok, _ := boltSizeIsLen(r, ctx); ok {
+			return true, "data[Start:Start+Length] with the non-nil result of Range(b.Size); Size is written as len(Contents) at the only marshal site"
+		}
+	}
+	return false, ""
+}
+
+// boltSizeIsLen: every boltObject literal that is marshalled sets Size to
+// int64(len(c)) for the same c stored in Contents.
+func boltSizeIsLen(r *core.Run, ctx *oblig.Ctx) (bool, string) {
+	n := 0
+	for _, st := range r.P.FieldStores("s3bolt.boltObject.Size") {
+		fa := st.Addr.(*ssa.FieldAddr)
+		var contents ssa.Value
+		for _, cs := range r.P.FieldStores("s3bolt.boltObject.Contents") {
+			if cs.Addr.(*ssa.FieldAddr).X == fa.X {
+				contents = cs.Val
+			}
+		}
+		n++
+		cv, ok := st.Val.(*ssa.Convert)
+		if contents == nil || !ok || !isLenOfVal(ctx, cv.X, contents) {
+			return false, "boltObject.Size is stored at " + r.P.InstrPos(st) + " as something other than int64(len(Contents))"
+		}
+	}
+	if n == 0 {
+		return false, "no store to boltObject.Size found"
+	}
+	return true, ""
+}
+
+// ---------------------------------------------------------------- nil
+
+type nilableField struct {
+	field  string
+	derefs string // what counts as a dereference: "invoke" (interface method call), "method" (call with it as receiver / field access)
+	why    string
+}
+
+var nilableFields = []nilableField{
+	{"gofakes3.GoFakeS3.versioned", "invoke", "nil when the backend is not versioned or WithoutVersioning is set"},
+	{"s3mem.bucketObject.versions", "method", "nil until the first version is archived"},
+	{"s3mem.bucketObjectIterator.iter", "invoke", "nil for objects without archived versions and after exhaustion"},
+	{"s3mem.bucketObjectIterator.data", "method", "nil once the current version has been yielded"},
+	{"s3mem.bucketObject.data", "method", "current version (must never be nil while the object is in the bucket)"},
+}
+
+func rule091nil(r *core.Run, ctx *oblig.Ctx, reach map[*ssa.Function]bool) {
+	r.Rule("R09.1n", "a value loaded from a nilable field is dereferenced (interface call, method call, field access) only where a guard or a non-nil store establishes it non-nil on every path; bucketObject.data is non-nil-invariant (every store non-nil, every new bucketObject gets data before it is reachable)")
+	p := r.P
+	// bucketObject.data invariant
+	dataInvariant := true
+	for _, st := range p.FieldStores("s3mem.bucketObject.data") {
+		ok := ctx.NonNilValue(st.Val, st, 0)
+		if !ok {
+			dataInvariant = false
+		}
+		r.Check(ok, "R09.1n", key(fname(r, st.Parent()), "store bucketObject.data"), pos(r, st), "stores a provably non-nil version",
+			"a possibly-nil value is stored into bucketObject.data: the key stays listed with no current version and GET/LIST dereference it")
+	}
+	// every allocation of bucketObject that leaves data unset is followed by a store on all paths to exit
+	for _, fn := range p.FuncsOfPkg("s3mem") {
+		f := fn
+		core.Instrs(fn, func(in ssa.Instruction) {
+			a, ok := in.(*ssa.Alloc)
+			if !ok || !isNamed(r, a.Type(), "s3mem", "bucketObject") {
+				return
+			}
+			setInLit := false
+			for _, ref := range *a.Referrers() {
+				if fa, ok := ref.(*ssa.FieldAddr); ok && p.FieldName(fa) == "s3mem.bucketObject.data" {
+					for _, u := range *fa.Referrers() {
+						if st, ok := u.(*ssa.Store); ok && core.Dominates(a, st) && st.Block() == a.Block() {
+							setInLit = true
+						}
+					}
+				}
+			}
+			if setInLit {
+				r.Held("R09.1n", key(fname(r, f), "new bucketObject"), pos(r, a), "data set in the literal")
+				return
+			}
+			// must-pass-through: every return reachable from the alloc passes a store to bucketObject.data
+			okAll := true
+			for _, ret := range core.Returns(f) {
+				if !core.Reaches(a, ret) {
+					continue
+				}
+				if core.ReachesAvoiding(a, ret, func(x ssa.Instruction) bool {
+					st, ok := x.(*ssa.Store)
+					if !ok {
+						return false
+					}
+					fa, ok := st.Addr.(*ssa.FieldAddr)
+					return ok && p.FieldName(fa) == "s3mem.bucketObject.data" && ctx.NonNilValue(st.Val, st, 0)
+				}) {
+					okAll = false
+				}
+			}
+			if !okAll {
+				dataInvariant = false
+			}
+			r.Check(okAll, "R09.1n", key(fname(r, f), "new bucketObject"), pos(r, a), "data is stored on every path before the function returns",
+				"a bucketObject is created and may be left without a current version")
+		})
+	}
+	// dereferences
+	count := map[string]int{}
+	for _, nf := range nilableFields {
+		for _, ldv := range p.FieldLoads(nf.field) {
+			ld, ok := ldv.(*ssa.UnOp)
+			if !ok {
+				continue
+			}
+			fn := ld.Parent()
+			refs := ld.Referrers()
+			if refs == nil {
+				continue
+			}
+			for _, u := range *refs {
+				deref := ""
+				switch x := u.(type) {
+				case ssa.CallInstruction:
+					cc := x.Common()
+					if cc.IsInvoke() && cc.Value == ssa.Value(ld) {
+						deref = "interface call ." + cc.Method.Name()
+					} else if !cc.IsInvoke() && len(cc.Args) > 0 && cc.Args[0] == ssa.Value(ld) && cc.Signature().Recv() != nil {
+						deref = "method call " + p.CalleeName(x)
+					}
+				case *ssa.FieldAddr:
+					if x.X == ssa.Value(ld) {
+						deref = "field access ." + strings.TrimPrefix(p.FieldName(x), "s3mem.bucketData.")
+					}
+				}
+				if deref == "" {
+					continue
+				}
+				count[nf.field]++
+				k := key(fname(r, fn), "deref "+nf.field, deref, sprintf("#%d", count[fname(r, fn)+nf.field+deref]))
+				count[fname(r, fn)+nf.field+deref]++
+				if nf.field == "s3mem.bucketObject.data" && dataInvariant {
+					r.Held("R09.1n", k, pos(r, u), "bucketObject.data is non-nil-invariant")
+					continue
+				}
+				ok := ctx.NonNilLoad(ld)
+				if !ok {
+					// a guard directly on this loaded value
+					ok = ctx.NonNilValue(ld, u, 5)
+				}
+				r.Check(ok, "R09.1n", k, pos(r, u), "established non-nil on every path",
+					sprintf("%s of a value loaded from %s (%s) without a nil guard on every path", deref, nf.field, nf.why))
+			}
+		}
+	}
+	// constructor post-conditions: log, timeSource, uploader non-nil when New returns
+	if nw := mustFunc(r, "gofakes3.New"); nw != nil {
+		for _, ret := range core.Returns(nw) {
+			base := ret.Results[0]
+			st, _ := deref2(base.Type()).Underlying().(*types.Struct)
+			for _, f := range []string{"log", "timeSource", "uploader"} {
+				idx := -1
+				for i := 0; st != nil && i < st.NumFields(); i++ {
+					if st.Field(i).Name() == f {
+						idx = i
+					}
+				}
+				ok := idx >= 0 && ctx.NonNilFieldAt(ret, base, idx, "gofakes3.GoFakeS3."+f)
+				r.Check(ok, "R09.1n", key(fname(r, nw), "postcondition "+f+" != nil"), pos(r, ret), "non-nil when New returns",
+					"GoFakeS3."+f+" may be nil when New returns: every handler dereferences it")
+			}
+		}
+	}
+	r.Floor("R09.1n", 25, "nil obligations")
+}
+
+func deref2(t types.Type) types.Type {
+	if pt, ok := t.Underlying().(*types.Pointer); ok {
+		return pt.Elem()
+	}
+	return t
+}
+
+// ---------------------------------------------------------------- type assertions
+
+type skipClass struct {
+	field    string
+	key, val string // expected dynamic types (TypeShort)
+}
+
+var skipClasses = []skipClass{
+	{"s3mem.bucket.objects", "string", "*s3mem.bucketObject"},
+	{"s3mem.bucketObject.versions", "gofakes3.VersionID", "*s3mem.bucketData"},
+	{"gofakes3.bucketUploads.objectIndex", "string", "[]*gofakes3.multipartUpload"},
+}
+
+// classOf resolves the skiplist class of a receiver (a *SkipList or an
+// iterator derived from one) by the field the skiplist was loaded from.
+func classOf(r *core.Run, recv ssa.Value) *skipClass {
+	s := r.P.SliceOf(recv, core.SliceOpts{Depth: 2, HeapFields: true, StopAt: func(v ssa.Value) bool {
+		// do not walk from one class into another through the element values
+		if ta, ok := v.(*ssa.TypeAssert); ok {
+			_ = ta
+			return true
+		}
+		return false
+	}})
+	var found *skipClass
+	n := 0
+	for i := range skipClasses {
+		if s.Has("field:" + skipClasses[i].field) {
+			found = &skipClasses[i]
+			n++
+		}
+	}
+	if n == 1 {
+		return found
+	}
+	return nil
+}
+
+// producerOf finds the skiplist/iterator call that produced an interface value
+// (Get/Delete/Value/Key result), through Extract and phi-free copies.
+func producerOf(r *core.Run, v ssa.Value) *ssa.Call {
+	for i := 0; i < 4; i++ {
+		switch x := v.(type) {
+		case *ssa.Extract:
+			v = x.Tuple
+		case *ssa.Call:
+			name := r.P.CalleeName(x)
+			if strings.Contains(name, "skiplist.") || strings.Contains(name, "goskipiter.") || strings.HasPrefix(name, "invoke:github.com/ryszard/goskiplist/skiplist.Iterator") {
+				return x
+			}
+			return nil
+		default:
+			return nil
+		}
+	}
+	return nil
+}
+
+func rule091assert(r *core.Run, ctx *oblig.Ctx, reach map[*ssa.Function]bool) {
+	r.Rule("R09.1t", "every type assertion without comma-ok in handler-reachable code asserts exactly the key/value type of a homogeneous skiplist class, and every Set/Get/Delete/Seek on that class passes keys and values of those types")
+	p := r.P
+	// homogeneity of the classes
+	for _, fn := range p.RepoFuncs() {
+		f := fn
+		core.Instrs(fn, func(in ssa.Instruction) {
+			c, ok := in.(ssa.CallInstruction)
+			if !ok {
+				return
+			}
+			name := p.CalleeName(c)
+			if !strings.Contains(name, "skiplist.") && !strings.Contains(name, "goskipiter.") && !strings.HasPrefix(name, "invoke:github.com/ryszard/goskiplist/skiplist.Iterator") {
+				return
+			}
+			m := name[strings.LastIndex(name, ".")+1:]
+			if m != "Set" && m != "Get" && m != "Delete" && m != "Seek" {
+				return
+			}
+			args := core.Args(c)
+			cl := classOf(r, args[0])
+			if cl == nil {
+				return
+			}
+			var dyn func(v ssa.Value) string
+			dyn = func(v ssa.Value) string {
+				if mi, ok := v.(*ssa.MakeInterface); ok {
+					return p.TypeShort(mi.X.Type())
+				}
+				if ph, ok := v.(*ssa.Phi); ok {
+					t := ""
+					for _, e := range ph.Edges {
+						et := dyn(e)
+						if t != "" && et != t {
+							return "?mixed"
+						}
+						t = et
+					}
+					return t
+				}
+				// a key taken from the same class' iterator
+				if c2, ok := v.(*ssa.Call); ok && strings.HasSuffix(p.CalleeName(c2), ".Key") {
+					if classOf(r, core.Args(c2)[0]) == cl {
+						return cl.key
+					}
+				}
+				return "?" + p.TypeShort(v.Type())
+			}
+			if len(args) >= 2 {
+				kt := dyn(args[1])
+				r.Check(kt == cl.key, "R09.1t", key(fname(r, f), m+" key on "+cl.field, sprintf("%d", core.InstrIndex(in))), pos(r, in), "key type "+kt, "key of dynamic type "+kt+" passed to a skiplist whose keys are "+cl.key+": comparator / readers assert "+cl.key)
+			}
+			if m == "Set" && len(args) >= 3 {
+				vt := dyn(args[2])
+				r.Check(vt == cl.val, "R09.1t", key(fname(r, f), "Set value on "+cl.field, sprintf("%d", core.InstrIndex(in))), pos(r, in), "value type "+vt, "value of dynamic type "+vt+" stored into a skiplist whose readers assert "+cl.val)
+			}
+		})
+	}
+	// the assertions
+	n := 0
+	for _, fn := range p.RepoFuncs() {
+		if !reach[fn] {
+			continue
+		}
+		f := fn
+		core.Instrs(fn, func(in ssa.Instruction) {
+			ta, ok := in.(*ssa.TypeAssert)
+			if !ok || ta.CommaOk {
+				return
+			}
+			n++
+			at := p.TypeShort(ta.AssertedType)
+			k := key(fname(r, f), "assert "+at, sprintf("#%d", n))
+			// comparator parameters of a custom map: class = the skiplist the closure is the comparator of
+			if par, ok := ta.X.(*ssa.Parameter); ok && f.Parent() != nil {
+				okc := false
+				core.Instrs(f.Parent(), func(pi ssa.Instruction) {
+					if c, ok := pi.(*ssa.Call); ok && p.CalleeName(c) == "github.com/ryszard/goskiplist/skiplist.NewCustomMap" {
+						var lit ssa.Value = c.Call.Args[0]
+						if mc, ok := lit.(*ssa.MakeClosure); ok {
+							lit = mc.Fn
+						}
+						if lit == ssa.Value(f) {
+							// where is the map stored
+							for _, ref := range *c.Referrers() {
+								if st, ok := ref.(*ssa.Store); ok {
+									if fa, ok := st.Addr.(*ssa.FieldAddr); ok {
+										for _, cl := range skipClasses {
+											if cl.field == p.FieldName(fa) && cl.key == at {
+												okc = true
+											}
+										}
+									}
+								}
+							}
+						}
+					}
+				})
+				_ = par
+				r.Check(okc, "R09.1t", k, pos(r, ta), "comparator of a class whose keys are "+at, "comparator asserts "+at+" but the skiplist it orders is not a class with that key type")
+				return
+			}
+			// statically safe interface-to-interface upcast (method value of an embedded interface)
+			if it, ok := ta.X.Type().Underlying().(*types.Interface); ok {
+				if jt, ok := ta.AssertedType.Underlying().(*types.Interface); ok && types.Implements(it, jt) {
+					r.Held("R09.1t", k, pos(r, ta), "interface upcast that the static type guarantees")
+					return
+				}
+			}
+			var cl *skipClass
+			prod := producerOf(r, ta.X)
+			if prod != nil {
+				cl = classOf(r, core.Args(prod)[0])
+			}
+			if cl == nil {
+				r.Violated("R09.1t", k, pos(r, ta), "unchecked type assertion to "+at+" on a value that is not from a known homogeneous skiplist class: it panics if the dynamic type differs")
+				return
+			}
+			want := cl.val
+			if strings.HasSuffix(p.CalleeName(prod), ".Key") {
+				want = cl.key
+			}
+			r.Check(at == want, "R09.1t", k, pos(r, ta), "asserts "+at+" on class "+cl.field, "asserts "+at+" but class "+cl.field+" holds "+want)
+		})
+	}
+	r.Floor("R09.1t", 20, "assertions + class operations")
+}
+
+// ---------------------------------------------------------------- explicit panics
+
+func rule091panic(r *core.Run, ctx *oblig.Ctx, reach map[*ssa.Function]bool) {
+	r.Rule("R09.1p", "every explicit panic reachable from the router is in the reviewed table and its premise holds")
+	n := 0
+	for _, fn := range r.P.RepoFuncs() {
+		f := fn
+		core.Instrs(fn, func(in ssa.Instruction) {
+			pn, ok := in.(*ssa.Panic)
+			if !ok {
+				return
+			}
+			n++
+			name := fname(r, f)
+			if !reach[f] {
+				r.Info("R09.1p", key(name, "panic"), pos(r, pn), "not reachable from the router")
+				return
+			}
+			switch name {
+			case "s3afero.(*MultiBucketBackend).getBucketWithArbitraryPrefixLocked$1":
+				// premise: reached only for non-directories (dirs and errors return first), guarded by len(parts) != 2
+				// where parts = SplitN(ToSlash(path), "/", 2) and the walk root is the bucket directory
+				okPrem := false
+				for _, f2 := range ctx.FactsAt(pn) {
+					if f2.Op == token.NEQ && isLenCall(f2.X) {
+						if k, ok := core.ConstInt(f2.Y); ok && k == 2 {
+							okPrem = true
+						}
+					}
+				}
+				dirGuard := false
+				for _, f2 := range ctx.FactsAt(pn) {
+					if f2.Bool != nil && !f2.Truth {
+						if c, ok := f2.Bool.(*ssa.Call); ok && strings.HasSuffix(r.P.CalleeName(c), ".IsDir") {
+							dirGuard = true
+						}
+					}
+				}
+				r.Check(okPrem && dirGuard, "R09.1p", key(name, "panic"), pos(r, pn),
+					"reviewed: afero.Walk is rooted at the bucket directory and the callback returns early for directories, so every visited file path has the form bucket/key",
+					"the 'unexpected path' panic lost its premises (len(parts) != 2 guard after the IsDir early return)")
+			default:
+				r.Violated("R09.1p", key(name, "panic"), pos(r, pn), "explicit panic reachable from the router is not in the reviewed table")
+			}
+		})
+	}
+	if n == 0 {
+		r.Unresolved("R09.1p: no panic instruction found at all (positive control: goskipiter.Previous and the Walk callback contain one)")
+	}
+}
+
+// ---------------------------------------------------------------- allocations
+
+func rule091alloc(r *core.Run, ctx *oblig.Ctx, reach map[*ssa.Function]bool) {
+	r.Rule("R09.1a", "every make([]T, n[, m]) in handler-reachable code has sizes that are constants, len-derived, or guarded 0 <= n <= constant bound")
+	n := 0
+	for _, fn := range r.P.RepoFuncs() {
+		if !reach[fn] {
+			continue
+		}
+		f := fn
+		core.Instrs(fn, func(in ssa.Instruction) {
+			ms, ok := in.(*ssa.MakeSlice)
+			if !ok {
+				return
+			}
+			for i, sz := range []ssa.Value{ms.Len, ms.Cap} {
+				if sz == nil {
+					continue
+				}
+				if _, ok := core.ConstInt(sz); ok {
+					continue
+				}
+				n++
+				k := key(fname(r, f), "make", []string{"len", "cap"}[i], p2(r, ms))
+				// len-derived: the only non-constant leaves are len() results
+				s := r.P.SliceOf(sz, core.SliceOpts{Depth: 2, StopAt: func(v ssa.Value) bool { return isLenCall(v) }})
+				lenOnly := true
+				for l := range s.Leaves {
+					if strings.HasPrefix(l, "const:") || strings.HasPrefix(l, "op:") || strings.HasPrefix(l, "stop:") || strings.HasPrefix(l, "via:") {
+						continue
+					}
+					lenOnly = false
+				}
+				if lenOnly {
+					r.Held("R09.1a", k, pos(r, ms), "size derives only from len() of existing data and constants")
+					continue
+				}
+				lb, okLB := ctx.LowerBound(sz, ms)
+				ub := upperConst(ctx, sz, ms)
+				if okLB && lb >= 0 && ub {
+					r.Held("R09.1a", k, pos(r, ms), "0 <= size and size <= constant by dominating guards")
+					continue
+				}
+				// reviewed
+				switch fname(r, f) {
+				case "gofakes3.(*uploader).UploadPart":
+					pn := paramNamed(f, "partNumber")
+					if pn != nil && upperConst(ctx, pn, ms) && ctx.Holds(ms, pn, token.GEQ, lenArgOf(sz)) {
+						r.Held("R09.1a", k, pos(r, ms), "reviewed: partNumber <= MaxUploadPartNumber and partNumber >= len(parts) on this arm, so 1 <= size <= 10001")
+						continue
+					}
+				case "s3mem.(*versionGenerator).Next":
+					if !s.HasPrefix("param:") || onlyInternal(s) {
+						r.Held("R09.1a", k, pos(r, ms), "reviewed: size derives from the generator's own constants (30-digit id + neat + 1)")
+						continue
+					}
+				}
+				r.Violated("R09.1a", k, pos(r, ms), "allocation size is not constant, not len-derived and not bounded by dominating guards (a request-controlled value can panic or exhaust memory)")
+			}
+		})
+	}
+	r.Floor("R09.1a", 5, "non-constant allocations")
+}
+
+func p2(r *core.Run, in ssa.Instruction) string { return r.P.TypeShort(in.(ssa.Value).Type()) }
+
+func onlyInternal(s *core.Slice) bool {
+	for l := range s.Leaves {
+		if strings.HasPrefix(l, "param:") && !strings.Contains(l, "versionGenerator") {
+			return false
+		}
+	}
+	return true
+}
+
+// lenArgOf finds a len(...) call inside v (for the reviewed UploadPart entry).
+func lenArgOf(v ssa.Value) ssa.Value {
+	var found ssa.Value
+	var walk func(x ssa.Value, d int)
+	walk = func(x ssa.Value, d int) {
+		if found != nil || d > 4 {
+			return
+		}
+		if isLenCall(x) {
+			found = x
+			return
+		}
+		if bo, ok := x.(*ssa.BinOp); ok {
+			walk(bo.X, d+1)
+			walk(bo.Y, d+1)
+		}
+	}
+	walk(v, 0)
+	return found
+}
+
+// upperConst: v <= constant (or <) by a dominating guard.
+func upperConst(ctx *oblig.Ctx, v ssa.Value, at ssa.Instruction) bool {
+	for _, f := range ctx.FactsAt(at) {
+		a, b, op := f.X, f.Y, f.Op
+		if ctx.Equiv(b, v) {
+			a, b = b, a
+			switch op {
+			case token.LSS:
+				op = token.GTR
+			case token.GTR:
+				op = token.LSS
+			case token.LEQ:
+				op = token.GEQ
+			case token.GEQ:
+				op = token.LEQ
+			}
+		} else if !ctx.Equiv(a, v) {
+			continue
+		}
+		if _, ok := core.ConstInt(b); ok && (op == token.LSS || op == token.LEQ || op == token.EQL) {
+			return true
+		}
+	}
+	return false
+}
+
+// ---------------------------------------------------------------- routing
+
+func rule092(r *core.Run) {
+	r.Rule("R09.2", "every route function dispatching on r.Method ends in a default arm returning an S3 error (no fall-through to a nil error with no response); routeBase's chain ends in http.NotFound")
+	for _, n := range routeFuncNames[1:] {
+		fn := mustFunc(r, n)
+		if fn == nil {
+			continue
+		}
+		// every return: either the result of a handler call, or a non-nil error constant
+		okAll := true
+		nRet := 0
+		for ret, ev := range returnedErrors(fn) {
+			nRet++
+			if core.IsNilConst(ev) {
+				okAll = false
+				r.Violated("R09.2", key(n, "return nil"), pos(r, ret), "a route arm returns nil without calling a handler: the client gets an empty 200")
+			}
+		}
+		// a default arm: some return yields MethodNotAllowed (or another ErrorCode constant)
+		s := errorSliceOf(r, fn, -1)
+		hasDefault := len(errCodes(s)) > 0
+		r.Check(okAll && hasDefault && nRet >= 2, "R09.2", key(n, "default arm"), r.P.Pos(fn.Pos()),
+			"default arm returns "+strings.Join(errCodes(s), ","), "route function has no default arm returning an S3 error code")
+	}
+	if rb := mustFunc(r, "gofakes3.(*GoFakeS3).routeBase"); rb != nil {
+		nf := r.P.CallsIn(rb, false, core.NameIs("net/http.NotFound"))
+		r.Check(len(nf) == 1, "R09.2", key(fname(r, rb), "http.NotFound"), r.P.Pos(rb.Pos()), "chain ends in http.NotFound", "routeBase no longer answers unrouted requests with http.NotFound")
+	}
+	r.Floor("R09.2", 8, "route functions")
+}
+
+// ---------------------------------------------------------------- wedge
+
+func rule094(r *core.Run, ctx *oblig.Ctx, undischarged map[*ssa.Function][]string) {
+	r.Rule("R09.4", "a lock released by an explicit (non-deferred) unlock protects only straight-line code with no call into the repo and no undischarged obligation: a recovered panic can never leave it held")
+	a := newLockset(r)
+	n := 0
+	for _, op := range a.Ops() {
+		if !op.Acquire || op.Deferred {
+			continue
+		}
+		fn := op.Instr.Parent()
+		// is there a deferred unlock of this class in fn?
+		deferred := false
+		for _, o2 := range a.Ops() {
+			if o2.Instr.Parent() == fn && o2.Deferred && !o2.Acquire && o2.Class == op.Class {
+				deferred = true
+			}
+		}
+		if deferred {
+			continue
+		}
+		n++
+		k := key(fname(r, fn), "explicit unlock region", op.Class)
+		// instructions while the lock is held
+		var bad []string
+		core.Instrs(fn, func(in ssa.Instruction) {
+			if in == ssa.Instruction(op.Instr) {
+				return
+			}
+			if a.MustAt(in).Get(op.Class) == lockset.None && a.MayAt(in).Get(op.Class) == lockset.None {
+				return
+			}
+			if o := a.Op(in); o != nil {
+				return
+			}
+			switch x := in.(type) {
+			case ssa.CallInstruction:
+				name := r.P.CalleeName(x)
+				if wedgeSafeCalls[name] || strings.HasPrefix(name, "builtin:") {
+					return
+				}
+				bad = append(bad, "call "+name+" at "+pos(r, in))
+			case *ssa.Panic:
+				bad = append(bad, "panic at "+pos(r, in))
+			case *ssa.TypeAssert:
+				if !x.CommaOk {
+					bad = append(bad, "unchecked type assertion at "+pos(r, in))
+				}
+			case *ssa.MapUpdate:
+				bad = append(bad, "map update at "+pos(r, in))
+			}
+		})
+		for _, u := range undischarged[fn] {
+			bad = append(bad, "undischarged bounds obligation at "+u)
+		}
+		r.Check(len(bad) == 0, "R09.4", k, pos(r, op.Instr), "only total operations between acquire and explicit release",
+			"lock "+op.Class+" is released by an explicit unlock but the protected region can panic or call out: "+strings.Join(bad, "; "))
+	}
+	if n == 0 {
+		r.Info("R09.4", "none", "", "no lock is released by explicit unlock")
+	}
+}
+
+// calls that cannot panic for any argument (short total-function table)
+var wedgeSafeCalls = map[string]bool{
+	"(*math/big.Int).Add": true, "fmt.Sprintf": true, "(*encoding/base32.Encoding).EncodeToString": true,
+}
+
+// ---------------------------------------------------------------- middleware
+
+func rule096(r *core.Run) {
+	r.Rule("R09.6", "on every path each middleware either answers itself or calls the next handler's ServeHTTP exactly once with the incoming writer and request")
+	type mw struct{ name string }
+	var fns []*ssa.Function
+	for _, n := range []string{"gofakes3.(*GoFakeS3).timeSkewMiddleware", "gofakes3.(*GoFakeS3).hostBucketMiddleware", "gofakes3.(*GoFakeS3).hostBucketBaseMiddleware"} {
+		f := mustFunc(r, n)
+		if f == nil {
+			continue
+		}
+		for _, a := range f.AnonFuncs {
+			if len(a.Params) == 2 && r.P.TypeShort(a.Params[0].Type()) == "net/http.ResponseWriter" {
+				fns = append(fns, a)
+			}
+		}
+	}
+	if f := mustFunc(r, "gofakes3.(*withCORS).ServeHTTP"); f != nil {
+		fns = append(fns, f)
+	}
+	for _, f := range fns {
+		var w, rq ssa.Value
+		for _, p := range f.Params {
+			switch r.P.TypeShort(p.Type()) {
+			case "net/http.ResponseWriter":
+				w = p
+			case "*net/http.Request":
+				rq = p
+			}
+		}
+		nexts := r.P.CallsIn(f, false, core.NameIs("invoke:net/http.Handler.ServeHTTP"))
+		answers := r.P.CallsIn(f, false, func(n string) bool {
+			return n == "gofakes3.(*GoFakeS3).httpError" || n == "(net/http.Header).Set" || n == "invoke:net/http.ResponseWriter.WriteHeader"
+		})
+		name := fname(r, f)
+		for i, c := range nexts {
+			args := c.Common().Args
+			r.Check(len(args) == 2 && args[0] == w && args[1] == rq, "R09.6", key(name, "next args", sprintf("#%d", i)), pos(r, c.(ssa.Instruction)),
+				"next.ServeHTTP(w, rq) with the incoming writer and request", "the next handler is not called with the incoming ResponseWriter and Request")
+			// never twice on one path
+			for j, d := range nexts {
+				if i != j && core.Reaches(c.(ssa.Instruction), d.(ssa.Instruction)) {
+					r.Violated("R09.6", key(name, "next twice"), pos(r, d.(ssa.Instruction)), "the next handler can be called twice on one path")
+				}
+			}
+		}
+		// every return is preceded on all paths by a next call or an answer
+		for i, ret := range core.Returns(f) {
+			silent := core.ReachableFromEntryAvoiding(ret, func(in ssa.Instruction) bool {
+				for _, c := range nexts {
+					if in == c.(ssa.Instruction) {
+						return true
+					}
+				}
+				for _, c := range answers {
+					if in == c.(ssa.Instruction) {
+						return true
+					}
+				}
+				return false
+			})
+			if silent && name == "gofakes3.(*withCORS).ServeHTTP" {
+				// the preflight arm answers with (configured) Access-Control headers only
+				for _, g := range core.GuardsOf(ret) {
+					sg := r.P.SliceOf(g.If.Cond, core.SliceOpts{Depth: -1})
+					if (sg.Has("const:Access-Control-Request-Method") || sg.Has("const:Origin")) && g.Branch {
+						silent = false
+					}
+				}
+			}
+			r.Check(!silent, "R09.6", key(name, "no silent return", sprintf("#%d", i)), pos(r, ret),
+				"every path answers or forwards", "a path returns without calling the next handler and without answering: the client gets an empty 200")
+		}
+	}
+	r.Floor("R09.6", 8, "middleware obligations")
+}
+
+// ---------------------------------------------------------------- blocking primitives
+
+func rule097(r *core.Run, reach map[*ssa.Function]bool) {
+	r.Rule("R09.7", "no channel operation, select, go statement, sync.Cond/WaitGroup wait or time.Sleep in handler-reachable code")
+	blocking := map[string]bool{"time.Sleep": true, "(*sync.WaitGroup).Wait": true, "(*sync.Cond).Wait": true, "time.After": true, "time.Tick": true}
+	var fns []*ssa.Function
+	for f := range reach {
+		fns = append(fns, f)
+	}
+	sort.Slice(fns, func(i, j int) bool { return fname(r, fns[i]) < fname(r, fns[j]) })
+	nViol := 0
+	for _, f := range fns {
+		core.Instrs(f, func(in ssa.Instruction) {
+			what := ""
+			switch x := in.(type) {
+			case *ssa.Send:
+				what = "channel send"
+			case *ssa.Select:
+				what = "select"
+			case *ssa.Go:
+				what = "go statement"
+			case *ssa.UnOp:
+				if x.Op == token.ARROW {
+					what = "channel receive"
+				}
+			case ssa.CallInstruction:
+				if blocking[r.P.CalleeName(x)] {
+					what = "call " + r.P.CalleeName(x)
+				}
+			}
+			if what != "" {
+				nViol++
+				r.Violated("R09.7", key(fname(r, f), what), pos(r, in), what+" in handler-reachable code can block a request indefinitely")
+			}
+		})
+	}
+	// positive control: the same matcher must see the blocking primitives that exist outside handler code (cmd: signal channel / ListenAndServe goroutine)
+	ctl := 0
+	for _, f := range r.P.RepoFuncs() {
+		core.Instrs(f, func(in ssa.Instruction) {
+			switch x := in.(type) {
+			case *ssa.Go, *ssa.Select, *ssa.Send:
+				ctl++
+			case *ssa.UnOp:
+				if x.Op == token.ARROW {
+					ctl++
+				}
+			}
+		})
+	}
+	r.Extra["blocking_primitives_outside_handlers"] = ctl
+	if nViol == 0 {
+		r.Held("R09.7", "none in "+sprintf("%d", len(fns))+" handler-reachable functions", "", sprintf("scanned %d functions; %d blocking primitive(s) exist elsewhere in the repo (matcher control)", len(fns), ctl))
 	}
 }
 
 func baseOf(in ssa.Instruction) ssa.Value {
+	var x ssa.Value
 	switch v := in.(type) {
 	case *ssa.IndexAddr:
-		return v.X
+		x = v.X
 	case *ssa.Index:
-		return v.X
+		x = v.X
 	case *ssa.Lookup:
-		return v.X
+		x = v.X
 	case *ssa.Slice:
-		return v.X
+		x = v.X
 	}
-	return nil
+	if x == nil {
+		return nil
+	}
+	return oblig.ResolveLocal(x)
+}
+
+// installNonNilHook vouches for pointers asserted out of the versions skiplist:
+// they are non-nil if every Set on that class stores a provably non-nil value.
+func installNonNilHook(r *core.Run, ctx *oblig.Ctx) {
+	state := 0 // 0 unknown, 1 ok, 2 bad
+	check := func() bool {
+		if state != 0 {
+			return state == 1
+		}
+		state = 1
+		n := 0
+		for _, fn := range r.P.FuncsOfPkg("s3mem") {
+			for _, c := range r.P.CallsIn(fn, false, core.NameIs("(*github.com/ryszard/goskiplist/skiplist.SkipList).Set")) {
+				cl := classOf(r, c.Common().Args[0])
+				if cl == nil || cl.field != "s3mem.bucketObject.versions" {
+					continue
+				}
+				n++
+				if !ctx.NonNilValue(c.Common().Args[2], c.(ssa.Instruction), 0) {
+					state = 2
+				}
+			}
+		}
+		if n == 0 {
+			state = 2
+		}
+		return state == 1
+	}
+	ctx.NonNilHook = func(v ssa.Value) bool {
+		ta, ok := v.(*ssa.TypeAssert)
+		if !ok {
+			return false
+		}
+		prod := producerOf(r, ta.X)
+		if prod == nil {
+			return false
+		}
+		cl := classOf(r, core.Args(prod)[0])
+		if cl == nil || cl.field != "s3mem.bucketObject.versions" {
+			return false
+		}
+		return check()
+	}
 }
